@@ -122,10 +122,14 @@ def imsiPrefix : Bytes := [105, 109, 115, 105, 45]
 
 def hasImsiPrefix (s : Bytes) : Bool := s.take 5 == imsiPrefix
 
-/-- `NewCHFUe`: the SUPI starts with "imsi-" and can name the subscriber's CDR file /tmp/<supi>.cdr
-    (no path separator, no NUL octet, at most 255 octets with the extension) -/
+/-- an octet a header line cannot carry: the C0 control characters and DEL (the session reference, which contains the SUPI and the
+    consumer's name, is handed to the consumer in the Location header) -/
+def isControl (b : Nat) : Bool := decide (b < 32) || b == 127
+
+/-- `NewCHFUe`: the SUPI starts with "imsi-", can name the subscriber's CDR file /tmp/<supi>.cdr (no path separator, no NUL
+    octet, at most 255 octets with the extension) and can be part of a session reference (no control character) -/
 def supiAccepted (s : Bytes) : Bool :=
-  hasImsiPrefix s && !s.contains 47 && !s.contains 0 && decide (s.length + 4 ≤ 255)
+  hasImsiPrefix s && !s.contains 47 && !s.contains 0 && decide (s.length + 4 ≤ 255) && !s.any isControl
 
 def findUe : List Ue → Bytes → Option Ue
   | [], _ => none
